@@ -197,9 +197,10 @@ func (l *lockListener) Event(x *Explorer, st *State, ev *Event) {
 			case "H":
 				held = lk.H != 0
 			case "S":
-				held = lk.S > 0
+				// the cache store and the pending store are different lock instances
+				held = lk.Si[ev.LockInst] > 0 || lk.Si[2] > 0 || (ev.LockInst == 2 && lk.S > 0)
 			case "M":
-				held = lk.M > 0
+				held = lk.Mi[ev.LockInst] > 0 || lk.Mi[2] > 0 || (ev.LockInst == 2 && lk.M > 0)
 			case "T":
 				held = lk.T > 0
 			}
@@ -213,6 +214,9 @@ func (l *lockListener) Event(x *Explorer, st *State, ev *Event) {
 			// R3: record order edges held -> acquired; cycles are judged after the exploration
 			for cls, n := range map[string]int8{"H": lk.H, "T": lk.T, "S": lk.S, "M": lk.M} {
 				if n > 0 {
+					if cls == ev.LockClass && !held {
+						continue // two different instances of one class: judged by R1 only
+					}
 					l.edge(cls, ev.LockClass, fn, where, stack)
 				}
 			}
